@@ -195,7 +195,7 @@ Print Assumptions C17_lex_end_tag_partial.
    XUnsrc.v, XLexTree.v, XLexHyps.v, XLexRound.v; eighteen more arm bodies, XLexMisc.xml_misc_bodies,
    discharged on the regenerated table in Inst/InstXmlLex.v).
    Side conditions, on the text of the node (all of them hold for a node this tokenizer produced,
-   with the two exceptions listed below - PI data starting with white space, the empty doctype name):
+   with the one exception listed below - PI data starting with white space):
    - every character of a comment, of a PI target / data and of a doctype name is neither U+000D
      nor U+0000 ([pre_ok]; the input preprocessing never lets them through); a reported character
      (control character, noncharacter) is allowed and costs one parse-error token;
@@ -211,10 +211,11 @@ Print Assumptions C17_lex_end_tag_partial.
      data with leading white space comes back without it - and CAN come from parsing:
      <?t? x?> is read as target t, data " x" (the quirk of the PiAfter state), written as
      <?t  x?>, read back as data "x";
-   - doctype ([doctype_name_ok]): the name is not empty, has no white space, no '>' and no ASCII
-     upper-case letter (the tokenizer lower-cases doctype names: a hand-built doctype R comes back
-     as r).  The empty name (from <!DOCTYPE>) does round-trip in the Rust code but is written
-     <!DOCTYPE > and read back with the name absent: outside this theorem. *)
+   - doctype ([doctype_name_ok]): the name has no white space, no '>' and no ASCII upper-case
+     letter (the tokenizer lower-cases doctype names: a hand-built doctype R comes back as r).
+     The empty name (from <!DOCTYPE>) is written <!DOCTYPE > and read back, with a parse error,
+     as a doctype whose name is absent - the same node for the tree builder, which does not tell
+     an absent name from an empty one (C17_tree_builder_ignores_tag_source). *)
 From HV Require XmlNs.XLexMisc XmlNs.XLexDoc XmlNs.XUnsrc XmlNs.XLexTree XmlNs.XLexHyps XmlNs.XLexRound XmlNs.XSplit.
 
 (* (i) <!--text--> from the Data state: the parse errors of [comment_toks] (reported characters, '<!--'
@@ -289,8 +290,9 @@ Print Assumptions C17_lex_document.
 
 (* ... which is the token list of C17_roundtrip_partial up to parse-error tokens (dropped by
    [conv_toks], as process_token hands them to the error log), the cutting of character data
-   (C15_tree_builder_independent_of_character_token_splitting) and the ghost source of tag tokens,
-   which no rule of the builder reads (next theorem): both lists build the same tree *)
+   (C15_tree_builder_independent_of_character_token_splitting), the ghost source of tag tokens,
+   which no rule of the builder reads, and absent against empty doctype names, which it does not
+   distinguish (next theorem): both lists build the same tree *)
 Theorem C17_lexed_tokens_build_the_same_tree :
   forall items, forallb XLexTree.item_ok2 items = true ->
   map erase (parse_tokens (XLexTree.conv_toks (flat_map XLexDoc.lex_item items ++ [Interp.TEof]))) =
@@ -315,8 +317,8 @@ Print Assumptions C17_tree_builder_ignores_tag_source.
    the chunked queue and the default mode to it up to parse errors and the merging of character
    tokens, which the builder does not see; (c) "t = tree (parse x)" is replaced by the two decidable
    hypotheses: the check evaluates both on every tree the Rust parser produced and asserts
-   [lex_hyps] whenever [rt_hyps] holds, except for trees with an empty doctype name or a PI data
-   starting with white space (see above).
+   [lex_hyps] whenever [rt_hyps] holds, except for trees with a PI data starting with white
+   space (see above: the known finding).
    Doctype public / system identifiers are outside the serializer API ([strip_ids]). *)
 Theorem C17_roundtrip_through_tokenizer_partial :
   forall simd c1 sk, Interp.sk_resp sk = [] -> forall kids bom,
